@@ -277,6 +277,13 @@ def rand_frame(rng, well_formed=None):
         if et in (ET_VLAN, ET_IPV4, ET_IPV6):
             et = 0x0806
         desc.append("ethertype%04x" % et)
+    if l3 in ("ipv4", "ipv6") and rng.random() < 0.07:
+        # an IEEE 802.3 frame: length field instead of an EtherType, LLC/SNAP header, then the same network layer. The type
+        # field (<= 1500) selects no supported layer, so everything after the Ethernet header is payload.
+        snap = b"\xaa\xaa\x03\x00\x00\x00" + (et.to_bytes(2, "big") if rng.random() < 0.8 else b"\x08\x06")
+        pkt = snap + pkt
+        et = min(len(pkt), 1500) if rng.random() < 0.8 else rng.choice([0, 46, 1500])
+        desc.append("802.3-snap")
     nv = rng.choice([0, 0, 0, 1, 1, 2])
     for i in range(nv):
         pkt = vlan(rng.getrandbits(3), rng.getrandbits(1), rng.getrandbits(12), et, pkt)
